@@ -1128,6 +1128,18 @@ func (e *clientEngine) txHandler(tx *cTx) stun.Handler {
 		if tx.kind == txDo {
 			tx.doCbDone = true
 		}
+		// re-entrancy: a handler that learns the client is closing may call Close
+		// itself; the first Close is in progress, so it must get ErrClientClosed
+		// (only on a closed-error event: then the closed flag is certainly set; a
+		// Close that becomes the first one inside a library goroutine waits for
+		// itself by design)
+		if e.reentPct > 0 && e.closeBegan && (errors.Is(c.err, stun.ErrAgentClosed) || errors.Is(c.err, stun.ErrClientClosed)) && e.viol == nil && e.reentered < 6 && e.r.Pct(30, "handler-calls-close") {
+			e.reentered++
+			e.stats["probe_handler_called_close"]++
+			if tk := e.r.Sim.Cur(); tk != nil {
+				e.doClose(tk)
+			}
+		}
 		// re-entrancy: a handler may start a new transaction (e.g. a retry)
 		// (only once the transaction's own Start call is past its write: a
 		// handler that runs while Start may still roll back is the K-c / K-d
